@@ -103,6 +103,10 @@ def run(ctx):
                 raise vlib.Trouble("PipResolveMC_strict: %s" % rn.error)
             design_cex = "TLC violates DoneStrict on the algorithm model after %d distinct states (expected: the recorded deviations exist at design level)" % rn.distinct if rn.violation else \
                          "DoneStrict holds on the algorithm model (the design-level form of the findings is gone)"
+    step_info = None
+    if not ctx.replay:
+        step_info = vlib.step_traces(vh, "pip", "PipStepTrace", "PipStepTrace.cfg", wdir, tablesf, mcases if ctx.tier == "quick" else mcases[::8], "PyPI",
+                                     extra_env={"VERIF_MATCH": matchf, "VERIF_OUT": os.path.join(wdir, "unused.raw")})
     casef = os.path.join(wdir, "cases.ndjson")
     obsf = os.path.join(wdir, "obs.ndjson")
     vlib.run_harness_split(vh, "pip", tablesf, cases, casef, obsf, nparts=1 if ctx.replay else 6)
@@ -164,7 +168,7 @@ def run(ctx):
                    "version of their source (informational, outside C08's wording)" % (gerr, err, info),
            "samples": [{"root": s["root"], "packages": len(s["universe"]), "graph": s["graph"]}],
            "resolutions_abandoned_after_60s": abandoned, "known_findings_hit": {k: v[0] for k, v in verdict.hits.items()}, "spec_divergence_info": info, "exhaustive": False,
-           "algorithm_model": {"family_universes": nmodel, "states": pr_states, "real_resolver_differs_on": len(model_diff), "c08_without_deviations_on_the_model": design_cex}}
+           "algorithm_model": {"family_universes": nmodel, "states": pr_states, "real_resolver_differs_on": len(model_diff), "c08_without_deviations_on_the_model": design_cex, "step_traces": step_info}}
     vlib.write_evidence(pid, ctx.tier, ctx.seed, "model_checking", cov, time.time() - t0, violations=len(verdict.violations),
                         assumptions=["TLC 1.8.0", "PEP 440 order and specifier semantics from Order.tla / Ranges.tla", "marker truth from PipModel!MEval over the "
                                      "fixed environment (python 3.9.6, linux, posix)", "pip's prerelease rule: a prerelease is acceptable when the specifier names one or no final release satisfies"])
